@@ -282,19 +282,37 @@ def run(ctx):
         reg = LauncherRegistry(pathlib.Path(d))
         launcher = DirectLauncher(LocalConnector.instance())
         singles = [t for t in T if t[3]]
+        launchers = [DirectLauncher(LocalConnector.instance()), DirectLauncher(LocalConnector.instance())]
+        hostpairs = list(itertools.product(list(zip(H, HS))[:: (13 if ctx.quick else 4)], repeat=2))
         for a, b in itertools.product(singles, repeat=2):
-            for h, hs in list(zip(H, HS))[:: (5 if ctx.quick else 1)]:
+            ra, rb = build_term(specs, a), build_term(specs, b)
+            for (h1, hs1), (h2, hs2) in hostpairs:
                 calls = []
 
-                def fn(spec, tags, hs=hs):
-                    calls.append(norm(snap(spec)))
-                    return launcher if spec.match(hs) else None
+                def fn(spec, tags, hosts=(hs1, hs2)):
+                    # a launchers.py that examines its hosts one after the other
+                    calls.append(snap(spec))
+                    for i, hs in enumerate(hosts):
+                        if spec.match(hs):
+                            return launchers[i]
+                    return None
                 reg.find_launcher_fn = fn
                 evaluations += 1
                 out = reg.find(f"{a[3]} | {b[3]}")
-                exp_calls = [norm(a[2])] + ([] if sufficient(a[2], h) and len(a[2]["gpus"]) >= h["min_gpu"] and calls[:1] and out is not None and len(calls) == 1 else [norm(b[2])])
-                if calls[0] != norm(a[2]) or (len(calls) > 1 and calls[1] != norm(b[2])):
-                    res.violation("find-order", f"find('{a[3]} | {b[3]}') consulted alternatives {calls}", {"kind": "find", "a": a[3], "b": b[3], "host": h})
+                # alternatives are tried in the order given: the first alternative that some host satisfies decides
+                expected = None
+                for r in (ra, rb):
+                    hit = next((i for i, hs in enumerate((hs1, hs2)) if r.match(hs)), None)
+                    if hit is not None:
+                        expected = launchers[hit]
+                        break
+                if out is not expected:
+                    which = lambda l: None if l is None else launchers.index(l) + 1
+                    res.violation("find-order", f"find('{a[3]} | {b[3]}') over hosts {h1} then {h2} returned the launcher of host {which(out)}, "
+                                  f"alternatives tried in order give host {which(expected)} (find_launcher was consulted with {calls})",
+                                  {"kind": "find", "a": a[3], "b": b[3], "hosts": [h1, h2]})
+                elif not calls or not isinstance(calls[0], dict) or norm(calls[0]) != norm(a[2]):
+                    res.violation("find-order:first-call", f"find('{a[3]} | {b[3]}') first consulted {calls[:1]}", {"kind": "find", "a": a[3], "b": b[3], "hosts": [h1, h2]})
 
     res.coverage = {
         "evaluations": evaluations,
